@@ -99,7 +99,7 @@ def make_desc(job):
     if o.get("extreme_every") and job.get("opt_rank") is not None and job["opt_rank"] % o["extreme_every"] == 0:
         # every k-th job of an optimizer takes the next boundary-parameter candidate in turn (full coverage of the
         # finite candidate set instead of random picks)
-        o["extreme_index"] = job["opt_rank"] // o["extreme_every"] + H(job["pid"], job["tier"], opt) % 97
+        o["extreme_index"] = job["opt_rank"] // o["extreme_every"]
     desc = scenario.gen_scenario(job["seed"], opt, fam, mode, engine_g.make_config, tier=job["tier"], opts=o)
     if o.get("history_utils") and desc.get("history"):
         desc["history_utils"] = True
